@@ -170,3 +170,59 @@ func vh_C04_L3_bounded_retries() {
 	vobserve("inits", uint64(inits))
 	vcover("end")
 }
+
+// C04.L1c / C13.L3: establishment from exchanged out-of-band INIT tokens (SNAP). Each
+// side is given its own INIT and the peer's; all 2^4 option combinations.
+func vSNAPInit(il, zc bool) *chunkInit {
+	init := &chunkInit{}
+	init.initialTSN = nondetU32()
+	init.numOutboundStreams, init.numInboundStreams = 65535, 65535
+	init.initiateTag = 1 + nondetU32()%0xfffffffe
+	init.advertisedReceiverWindowCredit = 1 << 20
+	setSupportedExtensions(&init.chunkInitCommon, il)
+	if zc {
+		init.params = append(init.params, &paramZeroChecksumAcceptable{edmid: dtlsErrorDetectionMethod})
+	}
+	return init
+}
+
+func vh_C04_L1_snap_tokens() {
+	ilA, ilB, zA, zB := vPick(2) == 1, vPick(2) == 1, vPick(2) == 1, vPick(2) == 1
+	initA, initB := vSNAPInit(ilA, zA), vSNAPInit(ilB, zB)
+	mk := func(local *chunkInit, il, zc bool) *Association {
+		cfg := &Config{NetConn: &vConn{}, LoggerFactory: vLoggerFactory{}, Name: "v", EnableZeroChecksum: zc}
+		cfg.enableInterleaving, cfg.enableInterleavingSet = il, true
+		a := createAssociationFromConfigWithTsn(cfg, local.initialTSN)
+		a.payloadQueue = newReceivePayloadQueue(192)
+		return a
+	}
+	a, b := mk(initA, ilA, zA), mk(initB, ilB, zB)
+	vassert(a.initWithOutOfBandTokens(initA, initB) == nil, "side A establishes from the tokens")
+	vassert(b.initWithOutOfBandTokens(initB, initA) == nil, "side B establishes from the tokens")
+	vassert(a.getState() == established && b.getState() == established, "both sides are established")
+	vassert(a.useInterleaving == (ilA && ilB) && b.useInterleaving == (ilA && ilB), "interleaving is on exactly when both enabled it")
+	vassert(a.useIForwardTSN == a.useInterleaving && b.useIForwardTSN == b.useInterleaving, "the forward-TSN variant matches interleaving")
+	vassert(a.sendZeroChecksum == zB && b.sendZeroChecksum == zA, "each side sends zero checksums only if the other declared them acceptable")
+	vassert(a.peerLastTSN() == initB.initialTSN-1 && b.peerLastTSN() == initA.initialTSN-1, "each side expects the peer's initial TSN")
+	vassert(a.peerVerificationTag == initB.initiateTag && b.peerVerificationTag == initA.initiateTag, "verification tags come from the peer's token")
+	// and a message goes through
+	a.cwnd, b.cwnd = 1<<20, 1<<20
+	s, err := a.OpenStream(1, PayloadTypeWebRTCBinary)
+	vassert(err == nil, "open stream")
+	m := nondetBytes(1)
+	_, werr := s.WriteSCTP(m, PayloadTypeWebRTCString)
+	vassert(werr == nil, "write accepted")
+	net := &vNet{a: a, b: b, dropAt: -1, dupAt: -1}
+	net.settle(8, 1)
+	bs := b.streams[1]
+	vassert(bs != nil, "the peer receives on the stream")
+	if bs != nil {
+		got, _ := vReadAll(bs, make([]byte, 4))
+		vassert(len(got) == 1 && got[0][0] == m[0], "data flows after SNAP establishment (checksums accepted by the peer)")
+	}
+	vcover("end")
+}
+
+// C13.L3: negotiation direction of zero checksums is part of the handshake obligations.
+func vh_C13_L3_negotiation_direction_snap() { vh_C04_L1_snap_tokens() }
+func vh_C13_L3_negotiation_direction_handshake() { vh_C04_L1_client_server() }
